@@ -202,21 +202,20 @@ def trans(chk, P):
 
 
 def multirange(chk, P):
+    """a one-range potential (start 2, exclusive) built through the constructor and evaluated above and below its start"""
     mod = "atsim.potentials._multi_range_potential_form"
     cls = P.cls(mod, "Multi_Range_Potential_Form_Deriv2")
     defn = P.cls(mod, "Multi_Range_Defn")
-    r = Num(ep.sym("r"))
-    for scenario in ("selected", "none"):
+    for scenario, rv in (("selected", 3), ("none", 1)):
         I = F.make_interp(P)
-        rd = I.instantiate(defn, [Const(">"), Num(ep.sym("s")), W.param("f")], {}, None)
-        I.hooks[mod + ":Multi_Range_Potential_Form._range_search"] = \
-            (lambda i, fv, a, k, n: rd) if scenario == "selected" else (lambda i, fv, a, k, n: NONE)
-        inst = InstV(cls)
-        inst.attrs["default_value"] = Num(ep.sym("default"))
+        I.assumption_fns.append(F.hasattr_true({"deriv": True, "deriv2": True}))
+        rd = I.instantiate(defn, [Const(">"), Num(ep.const(2)), W.param("f")], {}, None)
+        inst = I.instantiate(cls, [rd], {"default_value": Num(ep.sym("default"))}, None)
+        r = Num(ep.const(rv))
         for meth, order in (("__call__", 0), ("deriv", 1), ("deriv2", 2)):
             v = I.num(I.call(I.getattr(inst, meth), [r], {}))
             if scenario == "selected":
-                want = ep.app(("param", "f"), [ep.sym("r")], dorder=order)
+                want = ep.app(("param", "f"), [ep.const(rv)], dorder=order)
                 what = "%s uses the selected range's %s at r" % (meth, ["value", "first derivative", "second derivative"][order])
             else:
                 want = ep.sym("default") if order == 0 else ep.const(0)
